@@ -44,6 +44,25 @@ def run_program(tier, idx, prog=None, plan=None, seed=None):
     try:
         prog = prog or sk.gen_program(r, idx)
         f, src, inst = sk.build_callable(prog)
+        # every third program has a sibling: another function object with the SAME code object but other defaults (what a factory
+        # closure or a loop of lambdas produces); it is keyed first, so anything remembered per code object would be remembered wrongly
+        sib_done = False; sib_defaults = {}
+        if idx % 3 == 0:
+            try:
+                import types
+                g = f.func if isinstance(f, functools.partial) else f
+                g = getattr(g, '__func__', g)
+                if inspect.isfunction(g):
+                    sib = types.FunctionType(g.__code__, g.__globals__, g.__name__, tuple('sib%d' % i for i in range(len(g.__defaults__ or ()))), g.__closure__)
+                    sib.__kwdefaults__ = {k: 'sibkw' for k in (g.__kwdefaults__ or {})} or None
+                    spec = inspect.getfullargspec(sib)
+                    a0 = ['s'] * (len(spec.args) - len(spec.defaults or ()))
+                    k0 = {n: 's' for n in spec.kwonlyargs if n not in (spec.kwonlydefaults or {})}
+                    _keygen(sib, (), *a0, **k0)
+                    sib_done = True
+                    sib_defaults = dict(zip(spec.args[len(spec.args) - len(spec.defaults or ()):], spec.defaults or ()), **(spec.kwonlydefaults or {}))
+            except Exception:
+                pass
         I = sk.KInterner()
         consts = dict(null=I(NULL), star=I('*'), dstar=I('**'))
         sent = I(SENTINEL)
@@ -54,6 +73,7 @@ def run_program(tier, idx, prog=None, plan=None, seed=None):
         recs, viol = [], []
         tags = collections.Counter()
         tags['kind=' + prog['kind']] += 1
+        if sib_done: tags['sibling-keyed-first'] += 1
         kms = [sk.KEYMAPS[(idx + j) % len(sk.KEYMAPS)] for j in range(4)]
         ncalls = 6
         plan_out = []
@@ -97,6 +117,19 @@ def run_program(tier, idx, prog=None, plan=None, seed=None):
                     try: sk.full_bind(f, a3, k3); sig.bind(*a3, **k3)
                     except (TypeError, ValueError): continue
                     group.append(('mutate', a3, k3, (kind, pos)))
+                # a default left implicit vs the same parameter given another value (the sibling's default, when there is a sibling)
+                implicit = [p for p in sig.parameters.values() if p.kind in (p.POSITIONAL_OR_KEYWORD, p.KEYWORD_ONLY)
+                            and p.default is not p.empty and p.name not in ba0.arguments]
+                if implicit:
+                    p = r.choice(implicit)
+                    other = [v for v in ([sib_defaults[p.name]] if p.name in sib_defaults else sk.POOL) if not (v == p.default)]
+                    if other:
+                        a5, k5 = list(args), dict(kw, **{p.name: r.choice(other)})
+                        try:
+                            sk.full_bind(f, a5, k5); sig.bind(*a5, **k5)
+                            group.append(('mutate', a5, k5, ('k', p.name)))
+                            tags['default-vs-given'] += 1
+                        except (TypeError, ValueError): pass
                 # typed clause: ==-equal values of different type (1, 1.0, True), also swapped across two
                 # parameters with the keywords spelled in the opposite order
                 a4, k4 = list(args), dict(kw)
@@ -255,7 +288,8 @@ def run_program(tier, idx, prog=None, plan=None, seed=None):
                         if is_sel is True:
                             tags['C11-pair'] += 1
                             if not same:
-                                viol.append(dict(prop='C11', sig=dict(kind='ignored-argument-changes-key', keymap=kmk, how=kind),
+                                viol.append(dict(prop='C11', sig=dict(kind='ignored-argument-changes-key', keymap=kmk, how=kind, ignore_dstar='**' in ign,
+                                                                      kwonly=(kind == 'k' and pos in sk.KWONLY[:prog['nkw']])),
                                                  msg='%s%r ignore=%r: %r vs %r differ only in an ignored argument but keys differ: %r != %r' % (
                                                      kmk, kmo, ign, (base['args'], base['kw']), (rec['args'], rec['kw']), eb['key'], er['key']), item=dict(ci=rec['ci'])))
                         elif is_sel is False:
